@@ -810,6 +810,7 @@ Proof.
   unfold handle_start_task. destruct (get_stage s i) as [st|] eqn:Hs; [|constructor].
   destruct (nth_error (s_tasks st) t) as [tk|]; [|constructor].
   destruct (status_eqb (s_status st) NOT_STARTED); [keeps_list Hs|].
+  destruct (before_incomplete s i); [keeps_list Hs|].
   destruct (negb _); [keeps_list Hs|]. destruct (t_disabled tk); keeps_list Hs.
 Qed.
 
